@@ -56,7 +56,8 @@ def has (es : List (V × V)) (id : Nat) : Bool := (lookupKey id es).isSome
 def sliceSh (t : Ty) (v : V) : Option (List V) :=
   match v with
   | .slice et xs => if et = t || allOf t (xs.getD []) then some (xs.getD []) else none
-  | .ptr (.sl et) (some (.slice _ xs)) => if et = t then some (xs.getD []) else none
+  | .ptr (.sl et) (some (.slice _ xs)) =>     -- a pointer to a slice has the shape of the slice it points to
+    if et = t || (xs.isSome && allOf t (xs.getD [])) || (xs.isNone && et = .any) then some (xs.getD []) else none
   | _ => none
 
 def tupleSh (v : V) : Option (List V) :=
@@ -67,7 +68,7 @@ def tupleSh (v : V) : Option (List V) :=
 def mapSh (v : V) : Option (List (V × V)) :=
   match v with
   | .map _ _ es => some (es.getD [])
-  | .ptr (.mp .any .any) (some (.map _ _ es)) => some (es.getD [])
+  | .ptr _ (some (.map _ _ es)) => some (es.getD [])      -- a pointer to a map of any type
   | _ => none
 
 def recordSh (v : V) : Option (List (V × V)) :=
